@@ -318,9 +318,15 @@ fn case(i: u64, rng: &mut Rng, st: &mut State, quick: bool) {
         }
     }
     // (b) structured
-    for m in mutate::structured(&seed.bytes, &seed.map, rng, digest_size(hs)) {
+    let first = mutate::structured(&seed.bytes, &seed.map, rng, digest_size(hs));
+    let pairs = mutate::second_generation(&first, rng, digest_size(hs), if quick { 300 } else { 3000 });
+    for m in first.iter() {
         st.count(&format!("mutants.{}", m.class.split(':').next().unwrap_or("")));
-        judge(st, &seed, &canon_orig, &m);
+        judge(st, &seed, &canon_orig, m);
+    }
+    for m in pairs.iter() {
+        st.count("mutants.pair-of-structured-edits");
+        judge(st, &seed, &canon_orig, m);
     }
     // truncation at every offset
     for cut in 0..n {
@@ -330,7 +336,7 @@ fn case(i: u64, rng: &mut Rng, st: &mut State, quick: bool) {
         judge(st, &seed, &canon_orig, &Mutant { class: "truncated".into(), bytes: seed.bytes[..cut].to_vec() });
         st.count("mutants.truncated");
     }
-    // (c) semantic edits through the public fields
+    // (c) pairs of structured edits (sampled second generation); semantic edits through the public fields
     let mut sem: Vec<(&str, Proof)> = Vec::new();
     let mut p = seed.proof.clone();
     p.pow_nonce = p.pow_nonce.wrapping_add(1);
@@ -426,7 +432,7 @@ fn main() {
         run.merge(s);
     }
     run.finish(Finish {
-        rule: "seed proofs of small C01-family configurations (n = 8..32, 2..6 queries, 0..max FRI layers, single and multi segment, Lagrange kernel, trace metadata of 0..255 bytes at the element-chunk boundaries, all 12 field x hasher combinations, three extension degrees); mutants: every single-bit flip of the serialized proof (exhaustive in thorough; in quick all bits for proofs <= 1500 bytes and for the first 200 bytes, one random bit per byte beyond), every scalar and length field located by the wire-layout parser set to {0,1,max-1,max,+-1,random,...}, every blob grown / shrunk by one byte and by one digest with all enclosing lengths fixed up, emptied, bit-flipped; FRI layers removed / duplicated / swapped; query records swapped; one extra / one fewer digest inside each Merkle node vector; trailing garbage; truncation at every offset; semantic edits through the public fields (nonce, unique-query count, gkr_proof toggled/replaced, query sets swapped); FRI remainder replaced by remainder + c*prod(x - x_q) over the final query points (positions read from the verifier's coin). Oracle: parse failure, or decoded content equal to the original (or equal up to digest re-encoding / partition count: outside the claim), or rejected; acceptance otherwise is a violation. distinct_nontrivial = number of mutants that parsed to different content and were rejected + seeds".into(),
+        rule: "seed proofs of small C01-family configurations (n = 8..32, 2..6 queries, 0..max FRI layers, single and multi segment, Lagrange kernel, trace metadata of 0..255 bytes at the element-chunk boundaries, all 12 field x hasher combinations, three extension degrees); mutants: every single-bit flip of the serialized proof (exhaustive in thorough; in quick all bits for proofs <= 1500 bytes and for the first 200 bytes, one random bit per byte beyond), every scalar and length field located by the wire-layout parser set to {0,1,max-1,max,+-1,random,...}, every blob grown / shrunk by one byte, one zero byte, one digest, one field element and one table row with all enclosing lengths fixed up, emptied, bit-flipped; rows added to / removed from every opened table at once; out-of-domain frames re-encoded with frame size 1/3/4, a column added/removed, Lagrange frame injected/resized; FRI layers removed / duplicated / swapped; query records swapped; one extra / one fewer digest inside each Merkle node vector; trailing garbage; truncation at every offset; pairs of structured edits (sampled second generation); semantic edits through the public fields (nonce, unique-query count, gkr_proof toggled/replaced, query sets swapped); FRI remainder replaced by remainder + c*prod(x - x_q) over the final query points (positions read from the verifier's coin). Oracle: parse failure, or decoded content equal to the original (or equal up to digest re-encoding / partition count: outside the claim), or rejected; acceptance otherwise is a violation. distinct_nontrivial = number of mutants that parsed to different content and were rejected + seeds".into(),
         assumptions: vec!["all bindings are hash based: accidental acceptance needs a collision".into(), "panics are attributed to C06 and only counted here".into()],
         exhaustive: !quick,
         require,
